@@ -3186,6 +3186,7 @@ def check_C11(ctx):
         scens.append(Scen(S("top", items=[T("t0", body=["F", "S"]), T("t1", body=["F", "F", "S", "P"]), T("t2", body=["P"])]), mode=mode))
         scens.append(Scen(S("top", items=[S("inner", items=[T("t0", body=["P", "F", "S"])]), T("t1", body=["S", "F"])]), mode=mode))
     models = run_model_scenarios([s.text() for s in scens])
+    xb_lines, xb_meta = [], []
     # the scenarios' own signals (K11 ...) are test behaviour, not the sanitizer's business
     sig_env = asan_env()
     sig_env["ASAN_OPTIONS"] += ":handle_segv=0:handle_sigbus=0:handle_abort=0:handle_sigill=0:handle_sigfpe=0"
@@ -3217,6 +3218,26 @@ def check_C11(ctx):
                 miss = [x for x in sorted(want) if x not in got][:2]; extra = [x for x in got if x not in sorted(want)][:2]
                 fs = facts_of(s, m)
                 viol(("cases", rep), f"{rep} reporter: testcase elements (name, failures, errors, skipped) differ from what ran: expected {miss} got {extra}", case, dict(fs, rep=rep))
+            elif rep == "xml":
+                # the order of a testcase's children is what the model of the reporter's buffers transfers (Model/XmlBuf.lean, theorem
+                # C11_buffer_each_once): the test's failure elements, then what the reporting process adds
+                for c in (c for _, root, _, _ in docs for c in walk_cases(root)):
+                    seq = "".join({"failure": "f", "error": "e", "skipped": "s"}.get(x.tag, "?") for x in c.children)
+                    wn = [w_ for w_ in want if w_[0] == c.attrs.get("name", "")]
+                    if len(wn) != 1:
+                        continue      # (the same test name in several suites: the counts comparison above covers those)
+                    xb_lines.append(f"{'fork' if s.mode == 'fork' else 'inproc'} {wn[0][1]} {'S' if wn[0][3] else 'E' if wn[0][2] else '-'}")
+                    xb_meta.append((seq, c.attrs.get("name", ""), case))
+    if xb_lines:
+        mo = run_model(["xmlbuf"], "\n".join(xb_lines) + "\n").split("\n")
+        nxd = 0
+        for (seq, name, case), line in zip(xb_meta, mo):
+            want_seq = re.sub(r"<f\d+>", "f", line).replace("<s>", "s").replace("<e>", "e")
+            if seq != want_seq:
+                nxd += 1
+                viol(("order", "xml"), f"xml reporter: the children of testcase {name} are {seq!r} (f failure, s skipped, e error), the model of the reporter's buffers transfers {want_seq!r}", case, {"rep": "xml", "order": True})
+        ctx.oblige("correspondence C11: the children of every testcase are what the model of the XML reporter's buffers transfers, in that order", nxd == 0, f"{nxd} of {len(xb_lines)} differ")
+        ctx.coverage["xml_buffer_model_cases"] = len(xb_lines)
     nA = len(obs)
 
     # ---- (B) message content, (C) names and file texts ----
